@@ -11,6 +11,8 @@ From Verif Require Import Model.Ast Model.Lexer Model.Parser Model.Printer Model
 From Verif Require Model.Compile Model.Link.
 From Verif Require Base.PyValue Model.Dates.        (* bld-link: s2z for the text of C06_run_text_library *)
 From Verif Require Model.Grammar Gen.Grammar.
+(* bld-sem: the translator tie of the semantic actions (Required here, Imported before the last section) *)
+From Verif Require Model.PyMini Model.PrimsApi Model.PrimsSemantics Gen.SrcSemantics Proofs.SrcSemantics.
 
 (* The grammar introspected from /repo on this run (tatsu.compile(bql.ebnf): rules, choices,
    sequences, closures, gathers, cuts, tokens, patterns, keywords, directives) is the grammar
@@ -331,3 +333,218 @@ Proof. vm_compute. repeat split. discriminate. Qed.
 
 Example C06_peg_table_invariant_satisfiable : forall g lc act, tbl_ok g lc act tbl_empty.
 Proof. exact tbl_empty_ok. Qed.
+
+(* ====================================================================================================
+   The semantic actions FROM THE CURRENT SOURCE (bld-sem).  Gen/SrcSemantics.v is regenerated on every run from
+   the live objects of beanquery.parser: every function of the class BQLSemantics, parse and ParseError.__init__ as
+   PyMini terms (harness/vf/src_semantics.py), plus the method names of the class, its __mro__, the members of
+   ast.Ordering and the module-level objects of the module.  The theorems below say, for ALL token texts of the
+   rule's lexical class (the patterns of bql.ebnf as boolean predicates over Model/Lexer.v's scanners, in
+   Model/PrimsSemantics.v), that interpreting the translated action gives the value Model/PegActions.v's [bql_act]
+   assigns - the function the PEG interpreter above runs with.  Library conversions (int, Decimal, strptime, lower,
+   rstrip, constructors) are primitives whose meaning is the model function the lexer uses (Model/PrimsSemantics.v,
+   trusted); what is verified is how each action composes them. *)
+Import Verif.Base.PyValue Verif.Model.PyMini Verif.Model.PrimsApi Verif.Model.PrimsSemantics Verif.Gen.SrcSemantics.
+Import Verif.Proofs.SrcSemantics.
+
+(* string literal: the value is the text between the first and the last character - whatever the text; no other
+   character is cut (a quote character at the edge of the body stays) *)
+Theorem C06_source_string_literal :
+  forall (call_ref : nat -> list pv -> pv) (msg : String.string -> list pv -> pv) (tatsu : list Z -> tres)
+    flds ps s,
+  call_method call_ref (prim_sem kN kA msg tatsu) sem_string flds [PV (VStr s)] = PyMini.Ok (flds, PV (VStr (removelast (tl s)))) /\
+  bql_act "string" ps (Peg.NStr s) = Some (Peg.NStr (removelast (tl s))).
+Proof. exact Proofs.SrcSemantics.string_src. Qed.
+Print Assumptions C06_source_string_literal.
+
+Theorem C06_source_string_body :
+  forall (call_ref : nat -> list pv -> pv) (msg : String.string -> list pv -> pv) (tatsu : list Z -> tres)
+    flds q q' body,
+  call_method call_ref (prim_sem kN kA msg tatsu) sem_string flds [PV (VStr (q :: body ++ [q']))] = PyMini.Ok (flds, PV (VStr body)).
+Proof.
+  exact (fun call_ref msg tatsu flds q q' body =>
+    eq_trans (proj1 (Proofs.SrcSemantics.string_src call_ref msg tatsu flds [] (q :: body ++ [q'])))
+             (f_equal (fun b => PyMini.Ok (flds, PV (VStr b))) (Proofs.SrcSemantics.string_body q q' body))).
+Qed.
+Print Assumptions C06_source_string_body.
+
+(* decimal literal: exact and context-free - coefficient = all the digits, exponent = - number of fraction digits *)
+Theorem C06_source_decimal_literal :
+  forall (call_ref : nat -> list pv -> pv) (msg : String.string -> list pv -> pv) (tatsu : list Z -> tres)
+    flds ps s, decimal_class s = true ->
+  call_method call_ref (prim_sem kN kA msg tatsu) sem_decimal flds [PV (VStr s)] = PyMini.Ok (flds, (PrimsSemantics.enc kN) (PegActions.dec_of s)) /\
+  bql_act "decimal" ps (Peg.NStr s) = Some (PegActions.dec_of s).
+Proof. exact Proofs.SrcSemantics.decimal_src. Qed.
+Print Assumptions C06_source_decimal_literal.
+
+Theorem C06_source_decimal_spelled : forall ip fp,
+  forallb Lexer.is_digit ip = true -> forallb Lexer.is_digit fp = true ->
+  PegActions.dec_of (ip ++ 46%Z :: fp) = Peg.NDec (Lexer.digits_val (ip ++ fp)) (List.length fp).
+Proof. exact Proofs.SrcSemantics.dec_of_spelled. Qed.
+Print Assumptions C06_source_decimal_spelled.
+
+Theorem C06_source_integer_literal :
+  forall (call_ref : nat -> list pv -> pv) (msg : String.string -> list pv -> pv) (tatsu : list Z -> tres)
+    flds ps s, integer_class s = true ->
+  call_method call_ref (prim_sem kN kA msg tatsu) sem_integer flds [PV (VStr s)] = PyMini.Ok (flds, PInt (Z.of_N (Lexer.digits_val s))) /\
+  bql_act "integer" ps (Peg.NStr s) = Some (Peg.NInt (Lexer.digits_val s)).
+Proof. exact Proofs.SrcSemantics.integer_src. Qed.
+Print Assumptions C06_source_integer_literal.
+
+(* date literal: a calendar date gives the date; any other text of the class makes the action raise
+   FailedSemantics, i.e. the rule fails and the grammar's next alternative is tried *)
+Theorem C06_source_date_literal :
+  forall (call_ref : nat -> list pv -> pv) (msg : String.string -> list pv -> pv) (tatsu : list Z -> tres)
+    flds ps s y m d, Lexer.lex_date s = Some (y, m, d, []) ->
+  call_method call_ref (prim_sem kN kA msg tatsu) sem_date flds [PV (VStr s)] =
+    PyMini.Ok (flds, if Lexer.valid_date y m d then (PrimsSemantics.enc kN) (Peg.NDate y m d)
+                     else Proofs.SrcSemantics.date_failure msg s) /\
+  bql_act "date" ps (Peg.NStr s) = if Lexer.valid_date y m d then Some (Peg.NDate y m d) else None.
+Proof. exact Proofs.SrcSemantics.date_src. Qed.
+Print Assumptions C06_source_date_literal.
+
+Theorem C06_source_date_class : forall s,
+  date_class s = true <-> exists y m d, Lexer.lex_date s = Some (y, m, d, []).
+Proof. exact Proofs.SrcSemantics.date_class_iff. Qed.
+Print Assumptions C06_source_date_class.
+
+Theorem C06_source_valid_date : forall y m d,
+  Lexer.valid_date y m d = Dates.valid_ymd (Z.of_N y) (Z.of_N m) (Z.of_N d).
+Proof. exact Proofs.SrcSemantics.valid_date_ymd. Qed.
+Print Assumptions C06_source_valid_date.
+
+Theorem C06_source_boolean_null :
+  forall (call_ref : nat -> list pv -> pv) (msg : String.string -> list pv -> pv) (tatsu : list Z -> tres)
+    flds ps s v n,
+  (call_method call_ref (prim_sem kN kA msg tatsu) sem_boolean flds [PV (VStr s)] = PyMini.Ok (flds, PBool (Ast.str_eqb s (Lexer.str_of_string "TRUE"))) /\
+   bql_act "boolean" ps (Peg.NStr s) = Some (Peg.NBool (Ast.str_eqb s (Lexer.str_of_string "TRUE")))) /\
+  (call_method call_ref (prim_sem kN kA msg tatsu) sem_null flds [v] = PyMini.Ok (flds, (PrimsSemantics.enc kN) Peg.NNullMark) /\ bql_act "null" ps n = Some Peg.NNullMark).
+Proof.
+  exact (fun call_ref msg tatsu flds ps s v n => conj (Proofs.SrcSemantics.boolean_src call_ref msg tatsu flds ps s)
+                                   (Proofs.SrcSemantics.null_src call_ref msg tatsu flds ps v n)).
+Qed.
+Print Assumptions C06_source_boolean_null.
+
+Theorem C06_source_identifier :
+  forall (call_ref : nat -> list pv -> pv) (msg : String.string -> list pv -> pv) (tatsu : list Z -> tres)
+    flds ps s, identifier_class s = true ->
+  call_method call_ref (prim_sem kN kA msg tatsu) sem_identifier flds [PV (VStr s)] = PyMini.Ok (flds, PV (VStr (map Lexer.lower s))) /\
+  bql_act "identifier" ps (Peg.NStr s) = Some (Peg.NStr (map Lexer.lower s)).
+Proof. exact Proofs.SrcSemantics.identifier_src. Qed.
+Print Assumptions C06_source_identifier.
+
+(* list constants: the _NULL markers of the closure become None, every other item is kept, in order *)
+Theorem C06_source_list :
+  forall (call_ref : nat -> list pv -> pv) (msg : String.string -> list pv -> pv) (tatsu : list Z -> tres)
+    flds l,
+  call_method call_ref (prim_sem kN kA msg tatsu) sem_list flds [PList (map (PrimsSemantics.enc kN) l)] = PyMini.Ok (flds, PList (map (PrimsSemantics.enc kN) (map PegActions.unmark l))).
+Proof. exact Proofs.SrcSemantics.list_src. Qed.
+Print Assumptions C06_source_list.
+
+Theorem C06_source_asterisk_ordering :
+  forall (call_ref : nat -> list pv -> pv) (msg : String.string -> list pv -> pv) (tatsu : list Z -> tres)
+    flds ps v n0 n,
+  (call_method call_ref (prim_sem kN kA msg tatsu) sem_asterisk flds [v] = PyMini.Ok (flds, (PrimsSemantics.enc kN) Peg.NAsterisk) /\ bql_act "asterisk" ps n0 = Some Peg.NAsterisk) /\
+  ((n = Peg.NNone \/ exists c t, n = Peg.NStr (c :: t)) ->
+   call_method call_ref (prim_sem kN kA msg tatsu) sem_ordering flds [(PrimsSemantics.enc kN) n] =
+   match bql_act "ordering" ps n with Some n' => PyMini.Ok (flds, (PrimsSemantics.enc kN) n') | None => Exc KeyError end).
+Proof.
+  exact (fun call_ref msg tatsu flds ps v n0 n => conj (Proofs.SrcSemantics.asterisk_src call_ref msg tatsu flds ps v n0)
+                                    (Proofs.SrcSemantics.ordering_src call_ref msg tatsu flds ps n)).
+Qed.
+Print Assumptions C06_source_asterisk_ordering.
+
+(* _default: without a type name the node itself; with one, the object of that class built from the fields *)
+Theorem C06_source_default :
+  forall (call_ref : nat -> list pv -> pv) (msg : String.string -> list pv -> pv) (tatsu : list Z -> tres)
+    flds v ty fs,
+  call_method call_ref (prim_sem kN kA msg tatsu) sem_default flds [v; PNone] = PyMini.Ok (flds, v) /\
+  (NoDup (map (fun kv => PegActions.rstrip_us (fst kv)) fs) ->
+   call_method call_ref (prim_sem kN kA msg tatsu) sem_default flds [(PrimsSemantics.enc kN) (Peg.NDict fs); PStr ty] =
+   PyMini.Ok (flds, (PrimsSemantics.enc kN) (Peg.NObj ty (Proofs.SrcSemantics.default_fields fs)))).
+Proof.
+  exact (fun call_ref msg tatsu flds v ty fs => conj (Proofs.SrcSemantics.default_plain_src call_ref msg tatsu flds v)
+                                  (Proofs.SrcSemantics.default_typed_src call_ref msg tatsu flds ty fs)).
+Qed.
+Print Assumptions C06_source_default.
+
+(* parse(text): a NEW parser object and a NEW semantics object per call, run on the argument itself (no
+   normalisation, no cache key); a rejection is re-raised as ParseError whose location ends at
+   min(pos + 1, len(text)) *)
+Theorem C06_source_parse :
+  forall (call_ref : nat -> list pv -> pv) (msg : String.string -> list pv -> pv) (tatsu : list Z -> tres)
+    text,
+  call_function call_ref (prim_sem kN kA msg tatsu) parser_parse [PV (VStr text)] =
+  match tatsu text with
+  | TAccept n => PyMini.Ok n
+  | TReject item pos => PyMini.Ok (raised (Proofs.SrcSemantics.parse_error msg text item pos))
+  end.
+Proof. exact Proofs.SrcSemantics.parse_src. Qed.
+Print Assumptions C06_source_parse.
+
+Theorem C06_source_parse_location :
+  forall (call_ref : nat -> list pv -> pv) (msg : String.string -> list pv -> pv) (tatsu : list Z -> tres)
+    text item pos, tatsu text = TReject item pos ->
+  exists e,
+    call_function call_ref (prim_sem kN kA msg tatsu) parser_parse [PV (VStr text)] =
+      PyMini.Ok (raised (new_obj parse_error_cls
+                    [new_obj parseinfo_cls [tokenizer_of text; item; PInt pos; PInt e;
+                                            Proofs.SrcSemantics.line_of msg text pos; PList []]])) /\
+    (e <= Z.of_nat (List.length text) /\ e <= pos + 1 /\ (pos < Z.of_nat (List.length text) -> e = pos + 1))%Z.
+Proof. exact Proofs.SrcSemantics.parse_location_src. Qed.
+Print Assumptions C06_source_parse_location.
+
+Theorem C06_source_parse_error_init :
+  forall (call_ref : nat -> list pv -> pv) (msg : String.string -> list pv -> pv) (tatsu : list Z -> tres)
+    flds pinfo,
+  call_method call_ref (prim_sem kN kA msg tatsu) parse_error_init flds [pinfo] = PyMini.Ok (update "parseinfo" pinfo flds, PNone).
+Proof. exact Proofs.SrcSemantics.parse_error_init_src. Qed.
+Print Assumptions C06_source_parse_error_init.
+
+
+(* what the live objects say: the methods of BQLSemantics are set_context, the ten rules bql_act treats specially
+   (in that order) and _default; every other rule is dispatched to _default; the module holds no object besides the
+   _NULL sentinel (no parse cache, no shared parser instance) *)
+Theorem C06_source_dispatch :
+  semantics_methods = ("set_context" :: Proofs.SrcSemantics.specific_rules ++ ["_default"])%string /\
+  semantics_bases = ["beanquery.parser.BQLSemantics"; "builtins.object"]%string /\
+  ordering_members = [("ASC", 0%Z); ("DESC", 1%Z)]%string /\
+  (forall r ps n, ~ List.In r Proofs.SrcSemantics.specific_rules ->
+     bql_act r ps n =
+     match ps with
+     | [] => Some n
+     | ty :: _ => match n with
+                  | Peg.NDict fs => Some (Peg.NObj (PegActions.before_colons ty) (Proofs.SrcSemantics.default_fields fs))
+                  | _ => None
+                  end
+     end).
+Proof.
+  exact (conj Proofs.SrcSemantics.semantics_methods_ok (conj Proofs.SrcSemantics.semantics_bases_ok
+          (conj Proofs.SrcSemantics.ordering_members_ok Proofs.SrcSemantics.act_dispatch))).
+Qed.
+Print Assumptions C06_source_dispatch.
+
+Theorem C06_source_module_stateless :
+  module_state = [("_NULL", "builtins.object")]%string /\
+  ref_of refs "beanquery.parser._NULL" = Some kN /\ ref_of refs "beanquery.parser.ast" = Some kA /\ kN <> kA.
+Proof. exact (conj Proofs.SrcSemantics.module_state_ok Proofs.SrcSemantics.refs_ok). Qed.
+Print Assumptions C06_source_module_stateless.
+
+(* the translated actions RUN (vm_compute): "it's" keeps its inner quote, 1.50 keeps its trailing zero, 2021-02-29 makes
+   the date rule fail, a rejected parse at position 7 of a 7-character text is located at [7, 7] *)
+Example C06_source_actions_run :
+  let cr := fun (_ : nat) (_ : list pv) => PNone in
+  let ms := fun (_ : String.string) (_ : list pv) => PStr "?" in
+  let tt := fun (t : list Z) => TReject PNone (Z.of_nat (List.length t)) in
+  let run := call_method cr (prim_sem kN kA ms tt) in
+  run sem_string [] [PStr "'it's'"] = PyMini.Ok ([], PStr "it's") /\
+  run sem_decimal [] [PStr "1.50"] = PyMini.Ok ([], PV (VDec (mkdec false 150 (-2)))) /\
+  run sem_integer [] [PStr "007"] = PyMini.Ok ([], PInt 7) /\
+  run sem_date [] [PStr "2020-02-29"] = PyMini.Ok ([], PV (VDate 737484)) /\
+  run sem_date [] [PStr "2021-02-29"] = PyMini.Ok ([], Proofs.SrcSemantics.date_failure ms (zs "2021-02-29")) /\
+  run sem_identifier [] [PStr "Account_1"] = PyMini.Ok ([], PStr "account_1") /\
+  run sem_list [] [PList [PInt 1; PRef kN; PStr "x"]] = PyMini.Ok ([], PList [PInt 1; PNone; PStr "x"]) /\
+  call_function cr (prim_sem kN kA ms tt) parser_parse [PStr "SELECT "] =
+    PyMini.Ok (raised (new_obj parse_error_cls
+                 [new_obj parseinfo_cls [tokenizer_of (zs "SELECT "); PNone; PInt 7; PInt 7; PStr "?"; PList []]])).
+Proof. vm_compute. repeat split. Qed.
